@@ -382,6 +382,25 @@ func c18CheckSig(c C18Sig) *pbt.Violation {
 	if pk.Verify() {
 		return pbt.V("c18.forgery.accepted.pubkey:"+c.Kind, "PublicKey.Verify rejects forged signatures", "PublicKey.Verify accepted a %s signature", c.Kind)
 	}
+	// ... and as a server meets it: decoded from the wire first (for kind other-key-2048 with the 2048-bit
+	// key as profile key this is a key signed by itself)
+	var wire bytes.Buffer
+	if _, err := pk.WriteTo(&wire); err == nil {
+		var got user.PublicKey
+		if pv, stack := pbt.Try(func() { _, err = got.ReadFrom(bytes.NewReader(wire.Bytes())) }); pv != nil {
+			return pbt.V(pbt.PanicKey("c18.pubkey.readfrom", stack), "no panic", "PublicKey.ReadFrom panicked: %v", pv)
+		}
+		if err == nil {
+			var ok2, ok3 bool
+			if pv, stack := pbt.Try(func() { ok2 = got.Verify(); ok3 = user.VerifySignature(c.ProfileKey, sig) }); pv != nil {
+				return pbt.V(pbt.PanicKey("c18.verify.after-decode", stack), "no panic", "verification after a PublicKey was decoded panicked: %v", pv)
+			}
+			if ok2 || ok3 {
+				return pbt.V("c18.forgery.accepted.after-decode:"+c.Kind, "signature verification never accepts a signature that was not produced by the embedded services key",
+					"after a PublicKey was decoded from its wire form: Verify()=%v, VerifySignature=%v for a %s signature", ok2, ok3, c.Kind)
+			}
+		}
+	}
 	// positive control (keeps the rejections from being vacuous): with the embedded key swapped for the
 	// harness key, the genuine signature verifies and its bit-flip does not
 	if c.Kind == "other-key" || c.Kind == "other-key-flipped" || (c.Kind == "other-profile-key" && len(c.ProfileKey) > 0) {
